@@ -135,6 +135,7 @@ def step (st : DState) (line : String) : DState × String :=
       | _, _ => ""
     (st, o ++ extra)
   | "schema" :: _ => (st, Sonic.Model.Schema.runLine toks)
+  | "schema-copy" :: rest => (st, Sonic.Model.Schema.runLine ("schema" :: rest))  -- the copy read-back is judged against the final tree
   | "lazy" :: _ => (st, Sonic.Model.Lazy.runLine st.W toks)
   | "ser" :: _ => (st, Sonic.Model.Serialize.runLine st.W toks)
   | "pod" :: _ => (st, Sonic.Model.OnDemand.runLine st.W toks)
